@@ -40,7 +40,11 @@ type VerifC07Limiter struct {
 }
 
 func VerifC07NewLimiter(lister proxylisters.UpstreamClusterLister) *VerifC07Limiter {
-	store := local.NewLocalStore()
+	return VerifC07NewLimiterWithStore(lister, local.NewLocalStore())
+}
+
+// VerifC07NewLimiterWithStore: the same around a given store (e.g. the API-backed one over a fake clientset).
+func VerifC07NewLimiterWithStore(lister proxylisters.UpstreamClusterLister, store _interface.LimitStore) *VerifC07Limiter {
 	r := &rateLimiter{
 		runId:              "verif",
 		identity:           "verif",
